@@ -38,7 +38,13 @@ CLAIM = dict(
          "heterogeneous pairwise, pref-mix, individual/pair based, Attack_rate_*_from_graph) are covered by the oracle (and, for the 17 wrappers, the row-0 correspondence) only "
          "as far as row 0 / acceptance go; their right-hand sides' conservation and sign clauses are proved over the hand-written Model/Rhs2D.v, which is proved equal on every run to the "
          "definitions regenerated from the source (theorems C06_generated_*; pair-based under index_of_node = enumerate(nodelist) over a simple graph); each such theorem is also "
-         "re-evaluated numerically on the Python functions.")
+         "re-evaluated numerically on the Python functions.  Output layer of the 35 entry points that have no *_from_graph model (solver-level functions, "
+         "SIS/SIR_individual_based, SIS/SIR_pair_based and their *_pure_IC wrappers, EBCM, EBCM_uniform_introduction, EBCM_pref_mix(_from_graph), the five discrete-time EBCM functions, "
+         "Attack_rate_*_from_graph): executable models coq/Model/Outputs.v, Outputs2.v (initial vector handed to the solver, linspace grid, assembly of the returned tuple from the "
+         "solver's matrix; the 16 solver-level assemblies are the definitions of Model/Wrappers.v), theorems coq/Props/C06out.v (shape, documented order, row 0 = requested quantities, "
+         "S+I(+R) = structural total at every row; with a solver that preserves the linear invariant, e.g. explicit Euler on the GENERATED right-hand side, = N), component 'out' tied on every "
+         "run by harness/c06out.py with odeint/_my_odeint_ replaced from outside by a solver returning X0 followed by random dyadic rows (initial vector, grid and every row of every series compared; "
+         "forwarded arguments of the wrappers captured).")
 
 TOL0 = 1e-9
 
